@@ -304,3 +304,108 @@ impl SNode {
         }
     }
 }
+
+
+// ------------------------------------------------------------------ the type dimension
+// Children WITHOUT drop glue (plain `Copy` handles; their values are ordinary
+// `Val`s), and children whose VALUES have no drop glue (`Raw`). The library
+// may consult `mem::needs_drop`; what it does must not depend on the answer.
+
+#[derive(Clone, Copy, Debug)]
+pub struct PlainF(pub NodeId);
+#[derive(Clone, Copy, Debug)]
+pub struct PlainR(pub NodeId);
+#[derive(Clone, Copy, Debug)]
+pub struct PlainS(pub NodeId);
+
+impl Future for PlainF {
+    type Output = Val;
+    fn poll(self: Pin<&mut Self>, cx: &mut Context<'_>) -> Poll<Val> {
+        match world::leaf_poll(self.0, cx) {
+            LeafOut::Pending => Poll::Pending,
+            LeafOut::Yield(t, _) => Poll::Ready(t),
+            LeafOut::End => unreachable!(),
+        }
+    }
+}
+impl Future for PlainR {
+    type Output = Result<Val, Val>;
+    fn poll(self: Pin<&mut Self>, cx: &mut Context<'_>) -> Poll<Self::Output> {
+        match world::leaf_poll(self.0, cx) {
+            LeafOut::Pending => Poll::Pending,
+            LeafOut::Yield(t, true) => Poll::Ready(Ok(t)),
+            LeafOut::Yield(t, false) => Poll::Ready(Err(t)),
+            LeafOut::End => unreachable!(),
+        }
+    }
+}
+impl Stream for PlainS {
+    type Item = Val;
+    fn poll_next(self: Pin<&mut Self>, cx: &mut Context<'_>) -> Poll<Option<Val>> {
+        match world::leaf_poll(self.0, cx) {
+            LeafOut::Pending => Poll::Pending,
+            LeafOut::Yield(t, _) => Poll::Ready(Some(t)),
+            LeafOut::End => Poll::Ready(None),
+        }
+    }
+    fn size_hint(&self) -> (usize, Option<usize>) {
+        world::leaf_size_hint(self.0)
+    }
+}
+
+/// A value without destructor: the handle of a token whose drops are not tracked.
+#[derive(Clone, Copy, Debug)]
+pub struct Raw(pub u32);
+
+fn raw(v: Val) -> Raw {
+    let id = v.id;
+    std::mem::forget(v);
+    world::with(|w| {
+        if let Some(t) = w.toks.get_mut(crate::val::index_of(id)) {
+            t.untracked = true;
+        }
+    });
+    Raw(id)
+}
+
+#[derive(Debug)]
+pub struct RawF(pub DropMark);
+#[derive(Debug)]
+pub struct RawR(pub DropMark);
+#[derive(Debug)]
+pub struct RawS(pub DropMark);
+
+impl Future for RawF {
+    type Output = Raw;
+    fn poll(self: Pin<&mut Self>, cx: &mut Context<'_>) -> Poll<Raw> {
+        match world::leaf_poll(self.0 .0, cx) {
+            LeafOut::Pending => Poll::Pending,
+            LeafOut::Yield(t, _) => Poll::Ready(raw(t)),
+            LeafOut::End => unreachable!(),
+        }
+    }
+}
+impl Future for RawR {
+    type Output = Result<Raw, Val>;
+    fn poll(self: Pin<&mut Self>, cx: &mut Context<'_>) -> Poll<Self::Output> {
+        match world::leaf_poll(self.0 .0, cx) {
+            LeafOut::Pending => Poll::Pending,
+            LeafOut::Yield(t, true) => Poll::Ready(Ok(raw(t))),
+            LeafOut::Yield(t, false) => Poll::Ready(Err(t)),
+            LeafOut::End => unreachable!(),
+        }
+    }
+}
+impl Stream for RawS {
+    type Item = Raw;
+    fn poll_next(self: Pin<&mut Self>, cx: &mut Context<'_>) -> Poll<Option<Raw>> {
+        match world::leaf_poll(self.0 .0, cx) {
+            LeafOut::Pending => Poll::Pending,
+            LeafOut::Yield(t, _) => Poll::Ready(Some(raw(t))),
+            LeafOut::End => Poll::Ready(None),
+        }
+    }
+    fn size_hint(&self) -> (usize, Option<usize>) {
+        world::leaf_size_hint(self.0 .0)
+    }
+}
